@@ -117,12 +117,23 @@ CHECKS["C01"] = dict(
          "scalar outputs; programs the reference run rejects are skipped and counted.",
     design_ref="5/C01", engine="GIRMachine")
 
+CHECKS["C02"] = dict(
+    category="translation_validation",
+    technique="GIRMachine (TLA+ operational semantics of GIR) run by TLC on the GIR emitted by each of the seven frontends for renderings of the same core program; outputs compared with the program's reference semantics",
+    text="Core-language programs (ints, locals, arithmetic, comparisons, if/else, while, counted for, break/continue, functions, calls, return, "
+         "int arrays) are rendered in python, javascript, typescript, java, c, go and php; every rendering goes through the real frontend and "
+         "the one common GIR semantics; its outputs must equal the reference run, and a row the common semantics cannot execute (operation or "
+         "operand column outside the shared instruction set) is reported by name.",
+    note="Reference semantics of a core program = its Python rendering under CPython (tied to GIR by C01); records/objects and strings are not yet "
+         "generated; go and typescript are listed known findings (vocabulary), so they are currently fully masked.",
+    design_ref="5/C02", engine="GIRMachine")
+
 NOT_YET = {
 }
 
 ENGINES = [
-    dict(name="GIRMachine", path="specs/GIRMachine.tla harness/c01.py harness/pygen.py harness/girjson.py harness/lianrun.py",
-         serves_properties=["C01"], kind_free_text="executable TLA+ operational semantics of GIR, TLC as interpreter"),
+    dict(name="GIRMachine", path="specs/GIRMachine.tla harness/c01.py harness/c02.py harness/pygen.py harness/coregen.py harness/girjson.py harness/lianrun.py",
+         serves_properties=["C01", "C02"], kind_free_text="executable TLA+ operational semantics of GIR, TLC as interpreter"),
     dict(name="Pipeline", path="specs/Pipeline.tla harness/c14.py harness/c14_digest.py",
          serves_properties=["C14"], kind_free_text="deterministic TLA+ spec as trace validator + differential runs"),
     dict(name="GIRControl", path="specs/GIRControl.tla specs/ReachingDefs.tla harness/c04.py harness/c06.py harness/skeleton.py harness/girjson.py harness/lianrun.py",
